@@ -564,7 +564,7 @@ func PadCR3(payload []byte, pad, at int) []byte {
 }
 
 // PadHEIF: ftyp, meta{hdlr, pitm, iinf, iloc, [free]}, [free], mdat{[spaces] item}; pad bytes (0 or >= 8) as the last
-// child of meta (at = 0), between meta and mdat (at = 1) or inside mdat in front of the item (at = 2).
+// child of meta (at = 0), between meta and mdat (at = 1), inside mdat in front of the item (at = 2) or as the first child of meta (at = 3).
 func PadHEIF(payload []byte, pad, at int) []byte {
 	infe := func(id uint16, typ string) *Box {
 		return &Box{Type: "infe", Full: true, VerFlags: 2 << 24, Data: append(append([]byte{byte(id >> 8), byte(id), 0, 0}, typ...), 0)}
@@ -583,6 +583,8 @@ func PadHEIF(payload []byte, pad, at int) []byte {
 		meta.Kids = append(meta.Kids, &Box{Type: "free", Data: spaces(pad - 8)})
 	case pad > 0 && at == 1:
 		top = append(top, &Box{Type: "free", Data: spaces(pad - 8)})
+	case pad > 0 && at == 3: // first child of meta: hdlr, pitm, iinf and iloc follow the filler
+		meta.Kids = append([]*Box{{Type: "free", Data: spaces(pad - 8)}}, meta.Kids...)
 	case pad > 0:
 		inMdat = pad
 		mdat.Data = append(spaces(pad), mdat.Data...)
